@@ -23,6 +23,9 @@ mutual
     | .while_ e b => szE e + szB b + 1
     | .if_ e b elifs els => szE e + szB b + szEl elifs + szElse els + 1
     | .invoke e => szE e + 1
+    | .genEvt _ _ d _ => szP d + 1
+    | .createEvt _ _ _ d _ => szP d + 1
+    | .genPre e => szE e + 1
   def szB : Block → Nat
     | .nil => 1
     | .cons s rest => szS s + szB rest + 1
@@ -123,6 +126,20 @@ theorem genStmt_head (ctx : Ctx) : ∀ s : Stmt, wfStmt ctx s = true →
         | port => simp [isInvocation] at hw'
       | icall h n ps => exact ⟨_, _, by rw [genStmt], rfl⟩
       | _ => simp [isInvocation] at hw'
+  | .genEvt _ _ _ _, _ => ⟨_, _, by rw [genStmt]; rfl, rfl⟩
+  | .createEvt _ _ _ _ _, _ => ⟨_, _, by rw [genStmt]; rfl, rfl⟩
+  | .genPre _, _ => ⟨_, _, by rw [genStmt]; rfl, rfl⟩
+
+theorem parseTo_genTo (tgt : EvtTo) (hw : wfTo tgt = true) (rest : List Tok) :
+    parseTo (genTo tgt ++ p semi :: rest) = some (tgt, p semi :: rest) := by
+  cases tgt with
+  | cls kl => rfl
+  | creator kl => rfl
+  | inst h =>
+    cases h with
+    | var v => simp [genTo, parseTo]
+    | self => rfl
+    | _ => simp [wfTo, isVarOrSelf] at hw
 
 theorem stops_block (ctx : Ctx) (b : Block) (hw : wfBlock ctx b = true) (rest : List Tok) (hr : Stops rest) :
     Stops (genBlock b ++ rest) := by
@@ -280,6 +297,24 @@ theorem parseStmt_dcolon (ctx : Ctx) (f : Nat) (k : CallKind) (a b : String) (c 
     (r r1 : List Tok) (he : parseExpr ctx f (p dcolon :: r) = some (.call k a b c, r1)) :
     parseStmt ctx (f+1) (p dcolon :: r) = some (.invoke (.call k a b c), r1) := by
   rw [parseStmt.eq_def]; simp only [he]
+
+theorem parseStmt_genEvt (ctx : Ctx) (f : Nat) (l m : String) (d : Params) (tgt : EvtTo) (r r1 r2 : List Tok)
+    (h1 : parseParams ctx f r = some (d, p rpar :: kw to :: r1)) (h2 : parseTo r1 = some (tgt, r2)) :
+    parseStmt ctx (f+1) (kw generate :: ident l :: p colon :: phrase m :: p lpar :: r) =
+      some (.genEvt l (some m) d tgt, r2) := by
+  rw [parseStmt.eq_def]; simp only [h1, h2]
+
+theorem parseStmt_createEvt (ctx : Ctx) (f : Nat) (v l m : String) (d : Params) (tgt : EvtTo)
+    (r r1 r2 : List Tok)
+    (h1 : parseParams ctx f r = some (d, p rpar :: kw to :: r1)) (h2 : parseTo r1 = some (tgt, r2)) :
+    parseStmt ctx (f+1) (kw create :: kw event :: kw instance_ :: ident v :: kw of_ :: ident l :: p colon ::
+        phrase m :: p lpar :: r) = some (.createEvt v l (some m) d tgt, r2) := by
+  rw [parseStmt.eq_def]; simp only [h1, h2]
+
+theorem parseStmt_genPre (ctx : Ctx) (f : Nat) (v : String) (rest : List Tok) :
+    parseStmt ctx (f+3) (kw generate :: ident v :: p semi :: rest) = some (.genPre (.var v), p semi :: rest) := by
+  rw [parseStmt.eq_def]
+  simp only [parseExpr_var, parsePostfix_stop ctx f (.var v) (p semi :: rest) (Stops.cons rfl)]
 
 theorem parseBlock_nil (ctx : Ctx) (f : Nat) (ts : List Tok) (h : startsStmt ts = false) :
     parseBlock ctx (f+1) ts = some (.nil, ts) := by
@@ -467,6 +502,30 @@ mutual
           simp only [List.cons_append]
           exact parseStmt_transform ctx g h n ps _ _ he
         | _ => simp [isInvocation] at hw'
+    | .genEvt l m d tgt, hw => fun rest f hf => by
+        have hw' : (m.isSome = true ∧ wfParams ctx d = true) ∧ wfTo tgt = true := by simpa [wfStmt] using hw
+        obtain ⟨mm, rfl⟩ := Option.isSome_iff_exists.mp hw'.1.1
+        obtain ⟨g, rfl, hg⟩ := succ_of_le (a := szP d) (by simpa [szS] using hf)
+        simp only [genStmt, genEvtSpec, List.append_assoc, List.cons_append, List.nil_append]
+        exact parseStmt_genEvt ctx g l mm d tgt _ _ _ (paramsRT ctx d hw'.1.2 _ g hg)
+          (parseTo_genTo tgt hw'.2 rest)
+    | .createEvt v l m d tgt, hw => fun rest f hf => by
+        have hw' : (m.isSome = true ∧ wfParams ctx d = true) ∧ wfTo tgt = true := by simpa [wfStmt] using hw
+        obtain ⟨mm, rfl⟩ := Option.isSome_iff_exists.mp hw'.1.1
+        obtain ⟨g, rfl, hg⟩ := succ_of_le (a := szP d) (by simpa [szS] using hf)
+        simp only [genStmt, genEvtSpec, List.append_assoc, List.cons_append, List.nil_append]
+        exact parseStmt_createEvt ctx g v l mm d tgt _ _ _ (paramsRT ctx d hw'.1.2 _ g hg)
+          (parseTo_genTo tgt hw'.2 rest)
+    | .genPre e, hw => fun rest f hf => by
+        cases e with
+        | var v =>
+          simp only [szS, szE] at hf
+          obtain ⟨g, rfl, hg⟩ := succ_of_le (a := 2) (f := f) (by omega)
+          obtain ⟨g', rfl, hg'⟩ := succ_of_le (a := 1) hg
+          obtain ⟨g'', rfl, _⟩ := succ_of_le (a := 0) hg'
+          simp only [genStmt, genExpr, List.cons_append, List.nil_append]
+          exact parseStmt_genPre ctx g'' v rest
+        | _ => simp [wfStmt] at hw
   theorem blockRT (ctx : Ctx) : ∀ (b : Block), wfBlock ctx b = true → ∀ rest f, startsStmt rest = false →
       szB b ≤ f → parseBlock ctx f (genBlock b ++ rest) = some (b, rest)
     | .nil, _ => fun rest f hr hf => by
